@@ -35,7 +35,15 @@ pub const K4: &str = "AS OF read admits an element by the classification of its 
 pub const K5: &str = "HISTORY ELEMENT of an unreadable id lists the transactions that touched it (existence leak)";
 pub const K6: &str = "SEARCH matches on masked fields: a field mask can be probed by which hits come back";
 pub const K9: &str = "a policy deny naming the delegator does not reach its delegates: the delegate keeps what the delegator no longer holds";
+pub const K10: &str = "ENSURE PROPOSITION / UPSERT naming the identity (tuple / key) of an element the caller may not read resolves to it: no_effect and the hidden element's id instead of a creation";
 pub const K8: &str = "PREVIEW KML (and a mutation) aimed at an unreadable id is refused with NotAuthorized, at a never-assigned id with NotFoundOrNotVisible (existence leak)";
+
+/// Is `sig` still a LISTED finding? A repaired one (`fixed`) suppresses nothing: its pattern is a
+/// violation again.
+pub fn listed(sig: &str) -> bool {
+    static KF: std::sync::OnceLock<vf_core::KnownFindings> = std::sync::OnceLock::new();
+    KF.get_or_init(vf_core::KnownFindings::load).known("C19", sig).is_some()
+}
 
 /// A failed oracle clause with its structural signature.
 pub struct Fail {
@@ -333,9 +341,14 @@ fn run_two_worlds(c: &TwCase, ctx: &mut CaseCtx) -> Result<(), Fail> {
         m
     };
     let mut nontrivial_families: BTreeSet<&'static str> = BTreeSet::new();
+    let mut diverged_by_k10 = false;
     for (phase, a, b) in [("read", &s1.reads, &s2.reads), ("write", &s1.writes, &s2.writes)] {
         let (ga, gb) = (group(a), group(b));
         for (ci, ka) in &ga {
+            if diverged_by_k10 {
+                ctx.count("write_comparisons_skipped_after_K10", 1);
+                continue;
+            }
             let cmd = &cmds[*ci];
             let kb = gb.get(ci).cloned().unwrap_or_default();
             let pa: Vec<&Exchange> = ka.iter().map(|k| &a[*k]).collect();
@@ -357,7 +370,7 @@ fn run_two_worlds(c: &TwCase, ctx: &mut CaseCtx) -> Result<(), Fail> {
                             leaked.push(pop.label(*i));
                         }
                     }
-                    if !leaked.is_empty() {
+                    if !leaked.is_empty() && listed(K4) {
                         ctx.count("K4_attributions", 1);
                         ctx.excluded.push(K4.to_string());
                         continue;
@@ -374,17 +387,23 @@ fn run_two_worlds(c: &TwCase, ctx: &mut CaseCtx) -> Result<(), Fail> {
                 }
                 match compare_search(&pa, &pb, limit, total, &masked) {
                     SearchVerdict::Equal => {}
-                    SearchVerdict::ScoresOnly => {
+                    SearchVerdict::ScoresOnly if listed(K2) => {
                         ctx.count("K2_attributions", 1);
                         ctx.excluded.push(K2.to_string());
                     }
-                    SearchVerdict::WindowExhausted => {
+                    SearchVerdict::WindowExhausted if listed(K3) => {
                         ctx.count("K3_attributions", 1);
                         ctx.excluded.push(K3.to_string());
                     }
-                    SearchVerdict::MaskProbe => {
+                    SearchVerdict::MaskProbe if listed(K6) => {
                         ctx.count("K6_attributions", 1);
                         ctx.excluded.push(K6.to_string());
+                    }
+                    SearchVerdict::ScoresOnly | SearchVerdict::WindowExhausted | SearchVerdict::MaskProbe => {
+                        return fail(
+                            "c19:two-worlds:search-repaired-finding-returned",
+                            format!("(a) p{p}: {} is answered differently in the two worlds in the way of a SEARCH finding that is recorded as repaired\n  everything: {}\n  readable only: {}", describe(pa[0]), short(&pa[0].norm), short(&pb[0].norm)),
+                        );
                     }
                     SearchVerdict::Differs(d) => {
                         return fail(
@@ -401,6 +420,41 @@ fn run_two_worlds(c: &TwCase, ctx: &mut CaseCtx) -> Result<(), Fail> {
                     );
                 }
                 for (ea, eb) in pa.iter().zip(pb.iter()) {
+                    if ea.norm != eb.norm && phase == "write" && listed(K10) {
+                        // K10: the write resolved to an element of W that p cannot read (its label shows
+                        // in the answer of the world that holds everything)
+                        let text = ea.norm.to_string();
+                        let mut hidden_named = false;
+                        let bytes = text.as_bytes();
+                        let mut i = 0;
+                        while i + 2 < bytes.len() {
+                            if bytes[i] == b'<' && bytes[i + 1].is_ascii_lowercase() {
+                                let mut j = i + 2;
+                                while j < bytes.len() && bytes[j].is_ascii_digit() {
+                                    j += 1;
+                                }
+                                if j > i + 2 && j < bytes.len() && bytes[j] == b'>' {
+                                    if let Ok(n) = text[i + 2..j].parse::<usize>() {
+                                        if n < pop.items.len() && !r.contains(&n) {
+                                            hidden_named = true;
+                                        }
+                                    }
+                                }
+                                i = j;
+                            } else {
+                                i += 1;
+                            }
+                        }
+                        let t = ea.text.trim_start();
+                        if hidden_named && (t.starts_with("ENSURE") || t.starts_with("UPSERT") || t.contains("ENSURE PROPOSITION") || t.contains("UPSERT")) {
+                            ctx.count("K10_attributions", 1);
+                            ctx.excluded.push(K10.to_string());
+                            // the world without the hidden element has one transaction more from here
+                            // on: the rest of the write stream is not comparable
+                            diverged_by_k10 = true;
+                            continue;
+                        }
+                    }
                     if ea.norm != eb.norm {
                         return fail(
                             &format!("c19:two-worlds:{}", cmd.family),
